@@ -4,7 +4,7 @@ set -u
 P=$(readlink -f "$1"); PROP=$2; shift 2
 D=$(mktemp -d /tmp/vt_XXXXXX); rmdir "$D"
 git -C /repo worktree add -q --detach "$D" HEAD || exit 9
-if ! git -C "$D" apply "$P"; then echo "PATCH-DOES-NOT-APPLY"; git -C /repo worktree remove --force "$D"; exit 9; fi
+if ! git -C "$D" apply --ignore-whitespace "$P"; then echo "PATCH-DOES-NOT-APPLY"; git -C /repo worktree remove --force "$D"; exit 9; fi
 cd /verif && python3-vt check.py "$PROP" --root "$D" --evidence "$D/evidence.json" "$@"
 rc=$?
 git -C /repo worktree remove --force "$D"
